@@ -120,6 +120,23 @@ fn case_history<F: Family>(input: &Input, ctx: &mut Ctx) -> CaseResult {
     crate::checks::c04::history_core::<F>(input, ctx, 4)
 }
 
+
+/// nums = [full (0/1), start, count]: the byte sequences of c04's UTF-8 sweep as string content; whatever any
+/// front-end accepts is walked
+fn case_utf8(input: &Input, ctx: &mut Ctx) -> CaseResult {
+    let n = input.nums();
+    for i in n[1]..n[1] + n[2] {
+        let seq = crate::checks::c04::utf8_seq(n[0] == 1, i);
+        let (f3, f5) = crate::checks::c04::utf8_frames(&seq);
+        all_fronts::<V3>(&f3, "utf8-sweep", ctx)?;
+        all_fronts::<V5>(&f5, "utf8-sweep", ctx)?;
+    }
+    ctx.more_evals((n[2] * 2).saturating_sub(1));
+    ctx.count_distinct(n[2] * 2);
+    Ok(())
+}
+pub const SUB_UTF8: Sub = Sub { name: "c12.utf8-sequences", f: case_utf8 };
+
 pub const SUB_H3: Sub = Sub { name: "c12.history.v3", f: case_history::<V3> };
 pub const SUB_H5: Sub = Sub { name: "c12.history.v5", f: case_history::<V5> };
 /// nums = [first byte, remaining length, start, count]: a block of exhaustively enumerated short frames
@@ -146,7 +163,7 @@ pub const SUB_B3: Sub = Sub { name: "c12.bytes.v3", f: case_bytes::<V3> };
 pub const SUB_B5: Sub = Sub { name: "c12.bytes.v5", f: case_bytes::<V5> };
 
 pub fn subs() -> Vec<Sub> {
-    vec![SUB_V3, SUB_V5, SUB_B3, SUB_B5, SUB_H3, SUB_H5, SUB_X3, SUB_X5]
+    vec![SUB_V3, SUB_V5, SUB_B3, SUB_B5, SUB_H3, SUB_H5, SUB_X3, SUB_X5, SUB_UTF8]
 }
 
 pub fn run(env: &mut Env) -> RunResult {
@@ -166,6 +183,11 @@ pub fn run(env: &mut Env) -> RunResult {
     let sb2 = sb.clone();
     env.run_enum(SUB_X3, kb, true, move |i| sb2[i as usize].clone())?;
     env.run_enum(SUB_X5, kb, true, move |i| sb[i as usize].clone())?;
+    let full = env.thorough();
+    let total = crate::checks::c04::utf8_seq_count(full);
+    env.run_enum(SUB_UTF8, total.div_ceil(4_096), true, move |i| Input::Nums(vec![full as u64, i * 4_096, 4_096.min(total - i * 4_096)]))?;
+    env.require("c12.utf8-sequences", "accepted");
+    env.require("c12.utf8-sequences", "rejected-by-all");
     let n = env.tier.sel(25_000, 400_000);
     env.run_tapes(SUB_V3, n, 200)?;
     env.run_tapes(SUB_V5, n * 3, 300)?;
